@@ -2155,6 +2155,10 @@ func (s *swamp) SaveFunction(t treasure.Treasure, guardID guard.ID) treasure.Tre
 	// and the treasure is totally new
 	if existedTreasureObj == nil {
 
+		// the change flags are consumed by this Save (must happen while the guard is still
+		// held): from now on they mean "changed since the last Save"
+		t.ResetChangeFlags(guardID)
+
 		// If this key was recently deleted (e.g. via ShiftExpired), the old delete-marked
 		// treasure may still be sitting in the write buffer. We must remove it first,
 		// otherwise beacon.Add silently drops the new treasure (key already exists)
@@ -2248,6 +2252,12 @@ func (s *swamp) SaveFunction(t treasure.Treasure, guardID guard.ID) treasure.Tre
 				s.addToValueBeacon(t)
 			}
 		}
+
+		// All flags have been read; clear them so that they describe the changes since this
+		// Save only. Left set, every later Save of the record reports StatusModified (a Set of
+		// the identical value answers UPDATED, is re-queued for writing and re-sent to
+		// subscribers) and every built index is re-sorted again.
+		t.ResetChangeFlags(guardID)
 
 		// the treasure is modified, we need to add it to the swamp and write it to the chroniclerInterface
 		s.treasuresWaitingForWriter.Add(t)
